@@ -66,6 +66,9 @@ TEXTS.update({
  "C15": _t("rapid property test; differential between a scanning, a writing and a cache-loaded server over generated vod roots with injected cache faults",
            EXPL_NOTE + "Each case builds a vod root (bundled + generated + inadmissible layouts), damages cache files in 7 ways and compares every response of the request set.",
            TRUST + " vod.Load (harness) names the request set; gzip determinism of the Go standard library.", "DESIGN.md §7 C15"),
+ "C07": _t("rapid-generated request multisets (MPD, init, media, subtitles, patch, pages, ingest API) over a pool of 38 URL options; differential between a fresh instance, the long-running shared instance (permuted order, repeated), a cache-loaded instance and 2-16 concurrent workers; race-detector build",
+           EXPL_NOTE + "Oracle: (status, content type, body hash) per (URL, nowMS) is identical everywhere; any race report or process death is a violation.",
+           TRUST + " Interleavings are sampled by the Go scheduler on 16 cores, not enumerated: race freedom is evidenced, not established.", "DESIGN.md §7 C07"),
  "C08": _t("rapid hostile-request generation against a panic-transparent copy of the router (chi.Walk); validity predicate (no panic, terminates, deliberate status, 4xx/404 classes)",
            EXPL_NOTE + "Tens of thousands of requests per run over every URL key x hostile value, singly and pairwise, all endpoints and methods; panics are reported with value and first livesim2 frame.",
            TRUST + " /debug, /metrics and the external /player proxy are excluded; upload bodies above 16 MiB declared size are not generated.", "DESIGN.md §7 C08"),
